@@ -523,7 +523,7 @@ pub fn run(scen: &Scenario, schedule: Schedule, tracing: bool) -> RunOut {
     stats.yield_hits = vec![0; N_SITES];
     stats.yield_preempts = vec![0; N_SITES];
     let st = State {
-        rng: Rng::new(derive(scen.seed, 0x73636864)),
+        rng: Rng::new(derive(scen.seed ^ scen.sched_salt.rotate_left(32), 0x73636864)),
         list,
         th: (0..n).map(|_| ThState { life: Life::NotStarted, handle: None, join: None, view: Foot::default(), last_foot: None }).collect(),
         ops_done: 0,
